@@ -343,7 +343,7 @@ impl Sub for LatticeCheck {
             },
             n_sentences: 6,
             max_chunks: 8,
-            max_chars: 24,
+            max_chars: if self.which == Which::Candidates { 48 } else { 24 },
             with_user: true,
             with_mapping: self.which == Which::Optimality,
             space_only_if_exclusive: true,
@@ -477,6 +477,7 @@ impl Sub for LatticeCheck {
                         ctx.label_if(t.group_emitted > 0, "group_emitted");
                         ctx.label_if(t.group_omitted > 0, "group_omitted_by_bound");
                         ctx.label_if(t.bound_edge > 0, "grouping_bound_edge");
+                        ctx.label_if(t.bound_edge > 0 && o.max_grouping_len == 24, "grouping_bound_edge_at_24");
                         ctx.label_if(t.length_prefix > 0, "length_prefixes");
                         ctx.label_if(t.length_ne_run > 0, "length_ne_run");
                         ctx.label_if(t.dup_skipped > 0, "dup_run_skipped");
